@@ -152,3 +152,64 @@ Proof.
     split; [vm_compute; repeat constructor; discriminate|]. split; vm_compute; reflexivity.
   - vm_compute. repeat split; reflexivity.
 Qed.
+
+(* ------------------------------------------------------------------ the ReadData family *)
+Require Import Writer Handler ReadData ReaderAux CipherProofs ReadDataGenProofs.
+
+(* wsutil.ReadData / ReadClientData / ReadServerData / … (helper.go:readData, model
+   [read_data_call] in coq/model/ReadData.v) on a stream whose frame [f] breaks a header rule:
+   the wire bytes of [pre ++ f :: post], where the frame-sequence spec accepts [pre] (every header
+   rule, text messages valid UTF-8; [pre] may end inside a fragmented message) and ws.CheckHeader
+   refuses [f]'s header in the state [pre] leaves (fragmented iff [pre] ends inside a message).
+   For both sides, every wanted kind, EVERY transport chunking [s] of these bytes and every list of
+   masking keys, ONE call:
+   * writes exactly the replies the walk [rx_walk] asks for the control frames of [pre] that come
+     before the first wanted complete message / close of [pre] (each ping a pong with the identical
+     payload, the close echo, the 1002/1007 close for an invalid close — see C04_read_data_meets_spec),
+     in stream order, each one well-formed reply frame — control frames interleaved in skipped or
+     wanted fragmented messages of [pre] included — and nothing else;
+   * returns the first wanted complete message of [pre] (resp. the peer's close / the protocol
+     error of an invalid close) if [pre] holds one — exactly as on a valid stream — and otherwise
+     a ws.ProtocolError: never data.
+   Both the replies and the result are functions of [pre]'s events alone, so no byte of [f]
+   or of [post] is delivered as message data or echoed. The fuel bound excludes the out-of-fuel
+   artefact. *)
+Theorem C05_read_data_violation : forall state want pre f post rl s masks fuel,
+  (state = 1 \/ state = 2) -> Forall wf_sframe (pre ++ f :: post) -> Forall wf_key masks ->
+  let c := mkCfg state true 0 false in
+  let sp := spec_run c 0 None [] pre in
+  (sr_out sp = OClean \/ sr_out sp = OCutMidMessage) ->
+  check_header (sf_header f)
+    (set_fragmented state (match sr_out sp with OCutMidMessage => true | _ => false end)) = Some rl ->
+  wf_src s -> tl s = TEOF -> flat s = wire (pre ++ f :: post) ->
+  (length (wire (pre ++ f :: post)) + 2 <= fuel)%nat ->
+  let '(res, log) := read_data_call fuel want state s masks in
+  exists rf, frames_of (concat log) = Some rf /\
+    xreplies_ok state (fst (rx_walk want (sr_events sp) [])) rf = true /\
+    match snd (rx_walk want (sr_events sp) []) with
+    | Some xr => rx_result_matches (Some xr) res = true
+    | None => exists rl', res = RDErr (RProtocol rl')
+    end.
+Proof. exact read_data_violation. Qed.
+Print Assumptions C05_read_data_violation.
+
+Example C05_read_data_violation_nonvacuous :
+  let k1 := [17; 34; 51; 68] in let k2 := [255; 0; 128; 7] in
+  let pre := [mkSF true 0 9 (Some k1) [1; 2; 3];               (* ping before anything: pong [1;2;3] *)
+              mkSF false 0 1 (Some k1) [226; 130];             (* text, fragmented: not wanted, skipped *)
+              mkSF true 0 9 (Some k2) [4];                     (* ping inside it: still answered *)
+              mkSF true 0 0 (Some k1) [172; 104; 105]] in
+  let f := mkSF true 0 0 (Some k2) [66; 67] in                 (* a continuation with no message open *)
+  let post := [mkSF true 0 2 (Some k2) [7; 8]] in              (* a wanted message behind it: never delivered *)
+  let fs := pre ++ f :: post in
+  let s := mkSrc (chunk_by [3; 1; 7; 2; 2; 9; 1; 1; 4; 30] (wire fs)) TEOF in
+  sr_out (spec_run (mkCfg 1 true 0 false) 0 None [] pre) = OClean /\
+  check_header (sf_header f) (set_fragmented 1 false) = Some ContinuationUnexpected /\
+  rx_walk 2 (sr_events (spec_run (mkCfg 1 true 0 false) 0 None [] pre)) [] =
+    ([mkXR 10 [1; 2; 3] false; mkXR 10 [4] false], None) /\
+  read_data_call (length (wire fs) + 2) 2 1 s [] =
+    (RDErr (RProtocol ContinuationUnexpected), [[138; 3; 1; 2; 3]; [138; 1; 4]]) /\
+  (* text wanted: the message completed before the offending frame is returned as on a valid stream *)
+  read_data_call (length (wire fs) + 2) 1 1 s [] =
+    (RDData 1 [226; 130; 172; 104; 105], [[138; 3; 1; 2; 3]; [138; 1; 4]]).
+Proof. vm_compute. repeat split; reflexivity. Qed.
